@@ -58,10 +58,10 @@ theorem sameAcct_view (st : Store) (a : Addr) (x : RAcct) (h : sameAcct st a x =
         exact ⟨(rslot_zero x.stor k hk.1.2).symm, (rslot_zero x.cstor k hk.2).symm⟩
     refine ⟨h1, h2, h3, h4, ?_, ?_, by rw [hf.2.2.2.2.2.1, h5]⟩
     · funext k
-      simp only [Obj.slotView, hf.2.2.1, alookup, hf.1]
+      simp only [Obj.slotView, hf.2.2.1, alookup, base_loaded st a o hg]
       exact (hslots k).1
     · funext k
-      rw [hf.1]; exact (hslots k).2
+      rw [base_loaded st a o hg]; exact (hslots k).2
 
 theorem sameStartb_sound (st : Store) (w0 : List (Addr × RAcct)) (h : sameStartb st w0 = true) :
     (akeys w0).Nodup ∧ ∀ a, st.view a = (alookup a w0).map viewR := by
@@ -81,5 +81,291 @@ theorem sameStartb_sound (st : Store) (w0 : List (Addr × RAcct)) (h : sameStart
       exact this
     · simp only [List.mem_append, not_or] at hm
       exact getAccount_none_of_not_mem st a hm.1 hm.2
+
+/-! ### the records change in `Finalise` only -/
+
+theorem getObj_store (s : Impl) (a : Addr) : (s.getObj a).1.store = s.store := by
+  unfold Impl.getObj
+  split
+  · split <;> rfl
+  · split <;> rfl
+
+theorem getObj_store' {s s1 : Impl} {a : Addr} {ro : Option Obj} (h : s.getObj a = (s1, ro)) : s1.store = s.store := by
+  have := getObj_store s a
+  rw [h] at this; exact this
+
+theorem createObject_store {s : Impl} {a : Addr} {x : Impl × Obj × Option Obj} (h : s.createObject a = some x) :
+    x.1.store = s.store := by
+  unfold Impl.createObject at h
+  cases hg : s.getObj a with
+  | mk s1 prev =>
+    simp only [hg, Impl.jappend, Option.map_some, Option.some.injEq] at h
+    subst h
+    exact (getObj_store' hg : s1.store = s.store)
+
+theorem getOrNew_store {s : Impl} {a : Addr} {x : Impl × Obj} (h : s.getOrNew a = some x) : x.1.store = s.store := by
+  unfold Impl.getOrNew at h
+  cases hg : s.getObj a with
+  | mk s1 ro =>
+    have hs1 := getObj_store' hg
+    simp only [hg] at h
+    cases ro with
+    | some o => simp only [Option.some.injEq] at h; subst h; exact hs1
+    | none =>
+      simp only at h
+      cases hc : s1.createObject a with
+      | none => simp [hc] at h
+      | some y =>
+        simp only [hc, Option.map_some, Option.some.injEq] at h
+        subst h
+        exact (createObject_store hc).trans hs1
+
+theorem objSetBalance_store {s s' : Impl} {o : Obj} {n : Nat} (h : s.objSetBalance o n = some s') : s'.store = s.store := by
+  simp only [Impl.objSetBalance, Impl.jappend, Option.map_some, Option.some.injEq] at h
+  subst h; rfl
+
+theorem createAccount_store {s s' : Impl} {a : Addr} (h : s.createAccount a = some s') : s'.store = s.store := by
+  unfold Impl.createAccount at h
+  cases hc : s.createObject a with
+  | none => simp [hc] at h
+  | some x =>
+    obtain ⟨s1, newObj, pv⟩ := x
+    have hs1 : s1.store = s.store := createObject_store hc
+    simp only [hc] at h
+    cases pv with
+    | none => simp only [Option.some.injEq] at h; subst h; exact hs1
+    | some p => exact (objSetBalance_store h).trans hs1
+
+theorem touch_store {c : Cfg} {s s' : Impl} {a : Addr} (h : s.touch c a = some s') : s'.store = s.store := by
+  simp only [Impl.touch, Impl.jappend] at h
+  split at h <;> (simp only [Option.some.injEq] at h; subst h; rfl)
+
+theorem addBalance_store {c : Cfg} {s s' : Impl} {a : Addr} {n : Nat} (h : s.addBalance c a n = some s') :
+    s'.store = s.store := by
+  unfold Impl.addBalance at h
+  cases hg : s.getOrNew a with
+  | none => simp [hg] at h
+  | some p =>
+    obtain ⟨s1, o⟩ := p
+    have hs1 : s1.store = s.store := getOrNew_store hg
+    simp only [hg] at h
+    by_cases hn : n = 0
+    · simp only [hn, if_true] at h
+      by_cases he : o.empty = true
+      · simp only [he, if_true] at h; exact (touch_store h).trans hs1
+      · simp only [he, Bool.false_eq_true, if_false, Option.some.injEq] at h; subst h; exact hs1
+    · simp only [hn, if_false, Impl.jappend, Option.map_some, Option.some.injEq] at h
+      subst h; exact hs1
+
+theorem subBalance_store {s s' : Impl} {a : Addr} {n : Nat} (h : s.subBalance a n = some s') : s'.store = s.store := by
+  unfold Impl.subBalance at h
+  cases hg : s.getOrNew a with
+  | none => simp [hg] at h
+  | some p =>
+    obtain ⟨s1, o⟩ := p
+    have hs1 : s1.store = s.store := getOrNew_store hg
+    simp only [hg] at h
+    by_cases hn : n = 0
+    · simp only [hn, if_true, Option.some.injEq] at h; subst h; exact hs1
+    · simp only [hn, if_false, Impl.jappend] at h
+      by_cases hgt : n > o.bal
+      · simp [hgt] at h
+      · simp only [hgt, if_false, Option.some.injEq] at h; subst h; exact hs1
+
+theorem setNonce_store {s s' : Impl} {a : Addr} {n : Nat} (h : s.setNonce a n = some s') : s'.store = s.store := by
+  unfold Impl.setNonce at h
+  cases hg : s.getOrNew a with
+  | none => simp [hg] at h
+  | some p =>
+    obtain ⟨s1, o⟩ := p
+    simp only [hg, Impl.jappend, Option.map_some, Option.some.injEq] at h
+    subst h; exact getOrNew_store hg
+
+theorem setCode_store {s s' : Impl} {a : Addr} {code : Code} (h : s.setCode a code = some s') : s'.store = s.store := by
+  unfold Impl.setCode at h
+  cases hg : s.getOrNew a with
+  | none => simp [hg] at h
+  | some p =>
+    obtain ⟨s1, o⟩ := p
+    simp only [hg, Impl.jappend, Option.map_some, Option.some.injEq] at h
+    subst h; exact getOrNew_store hg
+
+theorem setState_store {s s' : Impl} {a : Addr} {k : Key} {v : Val} (h : s.setState a k v = some s') : s'.store = s.store := by
+  unfold Impl.setState at h
+  cases hg : s.getOrNew a with
+  | none => simp [hg] at h
+  | some p =>
+    obtain ⟨s1, o⟩ := p
+    have hs1 : s1.store = s.store := getOrNew_store hg
+    simp only [hg] at h
+    cases hgs : o.getState s1.store k with
+    | mk o1 prev =>
+      simp only [hgs] at h
+      by_cases hp : prev = v
+      · simp only [hp, if_true, Option.some.injEq] at h; subst h; exact hs1
+      · simp only [hp, if_false, Impl.jappend, Option.map_some, Option.some.injEq] at h; subst h; exact hs1
+
+theorem suicide_store {s s' : Impl} {a : Addr} {b : Bool} (h : s.suicide a = some (s', b)) : s'.store = s.store := by
+  unfold Impl.suicide at h
+  cases hg : s.getObj a with
+  | mk s1 ro =>
+    have hs1 := getObj_store' hg
+    simp only [hg] at h
+    cases ro with
+    | none => simp only [Option.some.injEq, Prod.mk.injEq] at h; rw [← h.1]; exact hs1
+    | some o =>
+      simp only [Impl.jappend, Impl.objSetBalance, Option.map_some, Option.some.injEq, Prod.mk.injEq] at h
+      rw [← h.1]; exact hs1
+
+theorem revertEntry_store {s s' : Impl} {e : Entry} (h : s.revertEntry e = some s') : s'.store = s.store := by
+  have hmod : ∀ a (f : Obj → Obj),
+      (match s.getObj a with | (_, none) => none | (s1, some o) => some (s1.setObj (f o))) = some s' → s'.store = s.store := by
+    intro a f hm
+    cases hg : s.getObj a with
+    | mk s1 ro =>
+      simp only [hg] at hm
+      cases ro with
+      | none => simp at hm
+      | some o => simp only [Option.some.injEq] at hm; subst hm; exact (getObj_store' hg : s1.store = s.store)
+  cases e with
+  | createObject a => simp only [Impl.revertEntry, Option.some.injEq] at h; subst h; rfl
+  | resetObject prev => simp only [Impl.revertEntry, Option.some.injEq] at h; subst h; rfl
+  | suicide a p pb =>
+    simp only [Impl.revertEntry] at h
+    cases hg : s.getObj a with
+    | mk s1 ro =>
+      simp only [hg] at h
+      cases ro with
+      | none => simp only [Option.some.injEq] at h; subst h; exact getObj_store' hg
+      | some o => simp only [Option.some.injEq] at h; subst h; exact (getObj_store' hg : s1.store = s.store)
+  | balance a p => exact hmod a (fun o => { o with bal := p }) h
+  | nonce a p => exact hmod a (fun o => { o with nonce := p }) h
+  | storage a k p => exact hmod a (fun o => o.setStateRaw k p) h
+  | code a pc ph => exact hmod a (fun o => o.setCodeRaw ph pc) h
+  | refund p => simp only [Impl.revertEntry, Option.some.injEq] at h; subst h; rfl
+  | addLog hh =>
+    simp only [Impl.revertEntry] at h
+    cases hlk : alookup hh s.logs with
+    | none => simp [hlk] at h
+    | some l =>
+      simp only [hlk] at h
+      by_cases h0 : l.length = 0
+      · simp [h0] at h
+      · simp only [h0, if_false] at h
+        by_cases h1 : l.length = 1
+        · simp only [h1, if_true, Option.some.injEq] at h; subst h; rfl
+        · simp only [h1, if_false, Option.some.injEq] at h; subst h; rfl
+  | touch a => simp only [Impl.revertEntry, Option.some.injEq] at h; subst h; rfl
+  | alAddr a => simp only [Impl.revertEntry, Option.some.injEq] at h; subst h; rfl
+  | alSlot a k => simp only [Impl.revertEntry, Option.some.injEq] at h; subst h; rfl
+
+theorem undoLast_store {s s' : Impl} (h : s.undoLast = some s') : s'.store = s.store := by
+  unfold Impl.undoLast at h
+  cases hl : s.journal.entries.getLast? with
+  | none => simp only [hl, Option.some.injEq] at h; subst h; rfl
+  | some e =>
+    simp only [hl] at h
+    cases hr : s.revertEntry e with
+    | none => simp [hr] at h
+    | some s1 => simp only [hr, Option.some.injEq] at h; subst h; exact (revertEntry_store hr : s1.store = s.store)
+
+theorem revertTo_store (snap : Nat) : ∀ (n : Nat) (s s' : Impl), s.revertTo snap n = some s' → s'.store = s.store := by
+  intro n
+  induction n with
+  | zero => intro s s' h; simp only [Impl.revertTo, Option.some.injEq] at h; subst h; rfl
+  | succ n ih =>
+    intro s s' h
+    simp only [Impl.revertTo] at h
+    by_cases hlen : s.journal.entries.length ≤ snap
+    · simp only [hlen, if_true, Option.some.injEq] at h; subst h; rfl
+    · simp only [hlen, if_false] at h
+      cases hu : s.undoLast with
+      | none => simp [hu] at h
+      | some s1 => simp only [hu] at h; exact (ih s1 s' h).trans (undoLast_store hu)
+
+theorem revertToSnapshot_store {s s' : Impl} {id : Nat} (h : s.revertToSnapshot id = some s') : s'.store = s.store := by
+  unfold Impl.revertToSnapshot at h
+  simp only at h
+  cases hr : s.revisions[findRev s.revisions id]? with
+  | none => simp [hr] at h
+  | some x =>
+    obtain ⟨rid, jidx⟩ := x
+    simp only [hr] at h
+    by_cases hid : rid ≠ id
+    · simp [hid] at h
+    · simp only [hid, if_false] at h
+      cases hrt : s.revertTo jidx s.journal.entries.length with
+      | none => simp [hrt] at h
+      | some s1 => simp only [hrt, Option.map_some, Option.some.injEq] at h; subst h; exact revertTo_store jidx _ s s1 hrt
+
+theorem orPanic_store (s : Impl) (ro : Option Impl) (h : ∀ s', ro = some s' → s'.store = s.store) :
+    (orPanic s ro).1.store = s.store := by
+  cases ro with
+  | none => rfl
+  | some s' => exact h s' rfl
+
+theorem readObj_store (s : Impl) (a : Addr) (f : Impl → Option Obj → Impl × Out)
+    (hf : ∀ s1 o, (f s1 o).1.store = s1.store) : (s.readObj a f).1.store = s.store := by
+  unfold Impl.readObj
+  cases hg : s.getObj a with
+  | mk s1 ro => simp only; rw [hf]; exact getObj_store' hg
+
+/-- every call but `Finalise` leaves the persistent records alone -/
+theorem step_store (c : Cfg) (s : Impl) (op : Op) (hop : ∀ b, op ≠ .finalise b) : (s.step c op).1.store = s.store := by
+  cases op with
+  | createAccount a => exact orPanic_store s _ fun _ h => createAccount_store h
+  | subBalance a n => exact orPanic_store s _ fun _ h => subBalance_store h
+  | addBalance a n => exact orPanic_store s _ fun _ h => addBalance_store h
+  | getBalance a => exact readObj_store s a _ fun _ _ => rfl
+  | getNonce a => exact readObj_store s a _ fun _ _ => rfl
+  | setNonce a n => exact orPanic_store s _ fun _ h => setNonce_store h
+  | getCodeHash a => exact readObj_store s a _ fun _ _ => rfl
+  | getCode a => exact readObj_store s a _ fun _ _ => rfl
+  | setCode a code => exact orPanic_store s _ fun _ h => setCode_store h
+  | getCodeSize a => exact readObj_store s a _ fun _ _ => rfl
+  | addRefund n => simp only [Impl.step, Impl.jappend]
+  | subRefund n =>
+    simp only [Impl.step, Impl.jappend]
+    split <;> rfl
+  | getRefund => rfl
+  | getCommittedState a k =>
+    refine readObj_store s a _ fun s1 o => ?_
+    cases o with
+    | none => rfl
+    | some o => rfl
+  | getState a k =>
+    refine readObj_store s a _ fun s1 o => ?_
+    cases o with
+    | none => rfl
+    | some o => rfl
+  | setState a k v => exact orPanic_store s _ fun _ h => setState_store h
+  | suicide a =>
+    simp only [Impl.step]
+    cases hs : s.suicide a with
+    | none => rfl
+    | some p => obtain ⟨s1, b⟩ := p; exact suicide_store hs
+  | hasSuicided a => exact readObj_store s a _ fun _ _ => rfl
+  | exist a => exact readObj_store s a _ fun _ _ => rfl
+  | empty a => exact readObj_store s a _ fun _ _ => rfl
+  | addAddressToAccessList a =>
+    refine orPanic_store s _ fun s' h => ?_
+    simp only [Impl.alAddAddr, Impl.jappend] at h
+    split at h <;> (simp only [Option.some.injEq] at h; subst h; rfl)
+  | addSlotToAccessList a k =>
+    refine orPanic_store s _ fun s' h => ?_
+    simp only [Impl.alAddSlot, Impl.jappend] at h
+    by_cases h1 : a ∈ s.alAddrs <;> by_cases h2 : (a, k) ∈ s.alSlots <;> simp [h1, h2] at h <;> (subst h; rfl)
+  | addressInAccessList a => rfl
+  | slotInAccessList a k => rfl
+  | prepare h => rfl
+  | addLog a p =>
+    refine orPanic_store s _ fun s' h => ?_
+    simp only [Impl.addLog, Impl.jappend, Option.map_some, Option.some.injEq] at h
+    subst h; rfl
+  | getLogs => rfl
+  | snapshot => rfl
+  | revertToSnapshot id => exact orPanic_store s _ fun _ h => revertToSnapshot_store h
+  | finalise b => exact absurd rfl (hop b)
+  | reset => rfl
 
 end OLP.Evm
